@@ -36,6 +36,14 @@ def gen(ctx):
     # letters written by check_async, in source order
     import ast
 
+    # which copies the daemon sends to verification: every suspect copy that is not released
+    upd = T.parse(core.REPO / "alpenhorn/daemon/update.py")
+    uq = [ast.unparse(x) for x in ast.walk(T.find_func(upd, "UpdateableNode.update")) if isinstance(x, ast.Call) and isinstance(x.func, ast.Attribute) and x.func.attr == "where"
+          and "has_file == 'M'" in ast.unparse(x)]
+    if uq != ["ArchiveFileCopy.select().where(ArchiveFileCopy.node == self.db, ArchiveFileCopy.has_file == 'M', ArchiveFileCopy.wants_file != 'N')"] \
+            or "self.io.check(copy)" not in ast.unparse(T.find_func(upd, "UpdateableNode.update")):
+        raise T.Untranslatable(f"UNTRANSLATABLE: the dispatch of checks in UpdateableNode.update changed: {uq}")
+
     fn = T.find_func(asy, "check_async")
     letters = [(x.lineno, x.value.value) for x in ast.walk(fn) if isinstance(x, ast.Assign) and ast.unparse(x.targets[0]) == "copy.has_file" and isinstance(x.value, ast.Constant)]
     letters.sort()
